@@ -1064,6 +1064,24 @@ def systematic_programs(max_level=2):
                             stmts = pre + [loop] + post
                         emit([P("begin")] + stmts + [P("end")],
                              ["sys-from", 'T' if incl else 't', str(step), ck, "%d..%d" % (a, b), ex])
+    # from-loop bounds that are calls with a visible effect: the start bound is evaluated before the end bound,
+    # each exactly once (how often `step` is evaluated stays an open reading: literal steps only)
+    for incl in (False, True):
+        for ck in ('anon', 'named'):
+            for step in (None, 2):
+                for ex in ('none', 'break', 'continue'):
+                    ctr[0] = 0
+                    defs = [('fn', 'lo1', [], 'int', [P("lo"), ('return', ('int', 1))]),
+                            ('fn', 'hi1', [], 'int', [P("hi"), ('return', ('int', 4))])]
+                    body = [P("body")]
+                    if ck == 'named':
+                        body.append(('print', ('var', 'k1')))
+                    if ex != 'none':
+                        body += [('if', [(T, [P("ex"), (ex,)])], None), P("after")]
+                    loop = ('from', ('call', 'lo1', []), ('call', 'hi1', []), incl, ('int', step) if step else None, ck,
+                            'k1' if ck == 'named' else None, body)
+                    emit([P("begin")] + defs + [loop, P("end")],
+                         ["sys-from-calls", 'T' if incl else 't', str(step), ck, ex])
     out.extend(precedence_programs())
     return out
 
